@@ -168,7 +168,9 @@ func cmdCheck(args []string) int {
 	for _, n := range names {
 		con := specs.Contracts[n]
 		fn := p.Funcs[n]
-		if fn == nil || len(fn.Blocks) == 0 {
+		if con.Kind == "lemma" {
+			fn = nil
+		} else if fn == nil || len(fn.Blocks) == 0 {
 			out.Undecided = append(out.Undecided, fmt.Sprintf("contract %s (%s) names no function with a body in the tree", n, con.Src))
 			continue
 		}
